@@ -382,12 +382,20 @@ def unparseKwonly (p : Nat → Bool) : List Param → Bool → List Out
   | [], _ => []
   | a :: as, first => delim first ++ unparseParam p a ++ unparseKwonly p as false
 
-/-- `unparse_comp` -/
+/-- `unparse_comp`; the `match` is `unparse_comp_target(&comp.target)` (since /repo's repair of comprehension
+    targets; before, `unparse_expr(&comp.target, precedence::TUPLE)`): a non-empty tuple is written bare, its
+    elements at `precedence::EXPR`, with the comma of a 1-tuple; everything else goes to `unparse_expr` at
+    `precedence::EXPR` (for the empty tuple that is `()`).  As a function of its own: `unparseTarget` below. -/
 def unparseComp (p : Nat → Bool) : List Comp → List Out
   | [] => []
   | .mk target iter ifs isAsync :: gs =>
     (if isAsync then [.sp, kw .async, .sp, kw .for, .sp] else [.sp, kw .for, .sp]) ++
-      unparse p target Prec.TUPLE ++ [.sp, kw .in, .sp] ++ unparse p iter (Prec.TEST + 1) ++
+      (match target with
+       | .tuple elts =>
+         if elts.isEmpty then [op .lpar, op .rpar]
+         else unparseSeq p elts Prec.EXPR true ++ (if elts.length = 1 then [op .comma] else [])
+       | t => unparse p t Prec.EXPR) ++
+      [.sp, kw .in, .sp] ++ unparse p iter (Prec.TEST + 1) ++
       unparseIfs p ifs ++ unparseComp p gs
 
 def unparseIfs (p : Nat → Bool) : List Expr → List Out
@@ -415,6 +423,24 @@ def fstringBody (p : Nat → Bool) : List Expr → Bool → List Nat
   | v :: vs, isSpec => fstringElem p v isSpec ++ fstringBody p vs isSpec
 end
 
+/-- `Unparser::unparse_comp_target(target)`: the target of a comprehension clause, read by the grammar as an
+    `ExpressionList` (comma list of `Expression`-level or starred elements) -/
+def unparseTarget (p : Nat → Bool) (target : Expr) : List Out :=
+  match target with
+  | .tuple elts =>
+    if elts.isEmpty then unparse p target Prec.EXPR
+    else unparseSeq p elts Prec.EXPR true ++ (if elts.length = 1 then [op .comma] else [])
+  | t => unparse p t Prec.EXPR
+
+/-- `unparse_comp` calls `unparse_comp_target` for the target of each clause -/
+theorem unparseComp_cons (p : Nat → Bool) (t i : Expr) (ifs : List Expr) (a : Bool) (gs : List Comp) :
+    unparseComp p (.mk t i ifs a :: gs) =
+      (if a then [.sp, kw .async, .sp, kw .for, .sp] else [.sp, kw .for, .sp]) ++
+        unparseTarget p t ++ [.sp, kw .in, .sp] ++ unparse p i (Prec.TEST + 1) ++
+        unparseIfs p ifs ++ unparseComp p gs := by
+  cases t <;> simp [unparseComp, unparseTarget]
+  case tuple es => cases es <;> simp [unparse]
+
 /-- `impl Display for Expr`: `unparse_expr(self, precedence::TEST)` -/
 def display (p : Nat → Bool) (e : Expr) : List Out := unparse p e Prec.TEST
 
@@ -425,7 +451,9 @@ def displayText (p : Nat → Bool) (e : Expr) : List Nat := text p (display p e)
 /-! ## the parenthesisation decision as a table
 
   `kindPrec k` is the level in the `group_if!` of the arm that renders kind `k` (`none`: the arm has
-  no `group_if!`), `slotLevel s` the `level` argument the parent passes for the child in slot `s`.
+  no `group_if!`), `slotLevel s` the `level` argument the parent passes for the child in slot `s`
+  (one exception: a non-empty tuple that is a comprehension target does not go through `unparse_expr`,
+  `unparse_comp_target` writes its elements itself — slot `compTargetElt` — and no parentheses).
   `PV.C11.unparse_shape` and `PV.C11.unparse_slot_levels` (Thm.lean) prove, for every expression and
   every constructor, that `unparse` is built from exactly these two tables. -/
 
@@ -469,7 +497,8 @@ def slotLevel : Slot → Nat
   | .genExpElt => Prec.TEST
   | .dictCompKey => Prec.TEST
   | .dictCompValue => Prec.TEST
-  | .compTarget => Prec.TUPLE
+  | .compTarget => Prec.EXPR
+  | .compTargetElt => Prec.EXPR
   | .compIter => Prec.TEST + 1
   | .compIf => Prec.TEST + 1
   | .yieldValue => Prec.TEST
@@ -488,11 +517,14 @@ def slotLevel : Slot → Nat
   | .namedValue => Prec.ATOM
   | .fstringField => Prec.TEST + 1
 
-/-- does the unparser put a child of kind `k` standing in slot `s` into parentheses? -/
+/-- does the unparser put a child of kind `k` standing in slot `s` into parentheses?
+    (`unparse_comp_target` writes a non-empty tuple bare, whatever the level: `unparseTarget`) -/
 def modelParens (s : Slot) (k : Kind) : Bool :=
-  match kindPrec k with
-  | some prec => decide (slotLevel s > prec)
-  | none => false
+  if s = .compTarget ∧ k = .tuple then false
+  else
+    match kindPrec k with
+    | some prec => decide (slotLevel s > prec)
+    | none => false
 
 def b2n (b : Bool) : Nat := if b then 1 else 0
 
